@@ -888,11 +888,10 @@ class _Run(object):
             ep = self.cfg.socks_endpoint(reactor, *args)
             ep.connect(Factory())
             outcome = reactor.calls[0] if reactor.calls else ("no-connect",)
-        except RuntimeError:
-            outcome = ("RuntimeError",)
         except Exception as e:
-            outcome = ("raised", repr(e))
-        expect = ("RuntimeError",) if chosen is None else _socks_target(chosen)
+            # with no SocksPort configured any refusal will do (the statement names no error type)
+            outcome = ("raised",) if chosen is None else ("raised", repr(e))
+        expect = ("raised",) if chosen is None else _socks_target(chosen)
         self.res.label("socks:" + ("none-configured" if chosen is None else ("by-port" if args else "first")))
         if outcome != expect:
             self.res.bad("socks-endpoint-wrong-target", "SocksPort %r, socks_endpoint%r -> %r, expected %r" % (
